@@ -257,6 +257,14 @@ var templates = []string{
 	"[0] dup dup 0 exch put { dup 0 get } loop",
 	"{0} dup dup 0 exch put exec",
 	"/a {a 1} def a", "/a {1 a} def a", "/a {b} def /b {a 1} def a",
+	// a procedure graph with sharing: 65 procedures, 2^64 paths
+	"/p {pop} def 64 { /p [ /p load dup ] cvx def } repeat /p load bind",
+	"/p {pop} def 40 { /p [ /p load dup dup ] cvx def } repeat /p load bind pop",
+	"/p {1} def 64 { /p [ /p load /exec load /p load /exec load ] cvx def } repeat",
+	"/a [1] def 60 { /a [ a a ] def } repeat a {pop} forall a length",
+	"/d 1 dict def 60 { /d << /x d /y d >> def } repeat d length",
+	"errordict begin typecheck", "errordict /undefined get exec", "errordict begin rangecheck stackunderflow end",
+	"errordict {exch pop exec} forall", "errordict /typecheck get dup exec exec",
 	"{dup exec 1} dup exec", "{1 dict begin} loop", "{1} loop", "{dup} loop", "0 1 9223372036854775807 {} for",
 	"0 0 1 {} for", "9223372036854775807 1 9223372036854775807 {} for", "-1 -1 -9223372036854775808 {pop} for",
 	"1 2 9223372036854775807 copy", "(abc) 9223372036854775807 (de) putinterval", "[1 2] 9223372036854775807 [3] putinterval",
@@ -598,6 +606,12 @@ func TestP4Others(t *testing.T) {
 // ---------------------------------------------------------------------------
 
 func TestReplay(t *testing.T) {
+	if msg, ok := replayFuzzCase(os.Getenv("VERIF_REPLAY")); ok {
+		if msg != "" {
+			t.Fatalf("%s", msg)
+		}
+		return
+	}
 	rc, err := ev.LoadReplay()
 	if err != nil {
 		t.Fatal(err)
